@@ -27,6 +27,7 @@ def run(ctx):
     if drift and not ctx.viol:
         raise vlib.Inconclusive("model drift: %d recorded run(s) are not behaviours of Server.tla although no property-level anomaly was observed; first: run %s at event %s after %s" % (
             len(drift), drift[0][0], json.dumps(drift[0][1]), json.dumps(drift[0][2])[:1200]))
+    ntls, tls_steps = sc.tls_front(ctx, binary)
     # the HTTP transport (kmipserver/http.go): every document shape of TextShapes.tla posted to the handler
     from checks import shapes
     rows, _, _ = shapes.replay(ctx)
@@ -37,10 +38,12 @@ def run(ctx):
         "evaluations": nruns + len(panics),
         "distinct_nontrivial": len({json.dumps([[x.get("p"), x.get("g"), x.get("act"), x.get("kind")] for x in r if x["ev"] in ("rel", "env")]) for r in runs}),
         "rule": "a run = one controlled execution of the real kmipserver over in-memory connections (gate controller releases one goroutine or performs one client action at a time); %d runs start from TLC-generated schedules into the critical windows (%s), the rest are seeded random walks of the controller; distinct = distinct release/environment sequences; every run is validated event by event by TLC against TraceServer.tla and judged by the property-level oracle (panic, leaked goroutine, response order/duplication/completeness, invalid-message reply)" % (len(scheds), ", ".join(TRAPS)),
+        "tls_histories": ntls, "tls_steps": tls_steps,
+        "tls_rule": "TlsAccept.tla: every history of 5 (quick) / 7 (thorough) steps of three clients of kinds silent / abort (partial ClientHello, close) / full (handshake, request, close) is replayed against a real server behind crypto/tls over the in-memory network in a synctest bubble; after every step the bubble runs to quiescence: a handshake step must complete and a request step must be answered whatever the other clients are doing; at the end Shutdown returns, Serve returns, hooks pair, no goroutine runs server code",
         "http_requests": nhttp,
         "http_rule": "every XML / JSON request document enumerated by TLC from TextShapes.tla (well-formed, alternative notations and ~110 malformations per node) is posted to kmipserver.NewHTTPHandler: ServeHTTP must return, with status 200 and exactly one response message of one item, failed when the request cannot be decoded",
         "trap_schedules": len(scheds), "schedule_commands_diverged": div, "events_validated": len(log),
         "samples": [scheds[0]] + runs[len(runs) // 2][:25],
     }, assumptions=["controlled runs are sequences of macro-steps (one shared-memory operation per release); the equivalence of free-running executions to such sequences rests on the linearizability of Go's channels, atomics and contexts",
                     "handlers are reached through BatchExecutor (operation handler outcomes ok / typed error / plain error / panic with string, error, int, runtime error, Stringer)",
-                    "in-memory transport: writes never block; TLS handshake branch not exercised"])
+                    "in-memory transport: writes never block; the gate-level runs are TLS-less, the TLS handshake branch is covered by the TlsAccept histories (free-running goroutines, quiescence after every step)"])
